@@ -55,6 +55,11 @@ pub struct RunOut {
     pub line: String,
 }
 
+thread_local! {
+    /// distinct (pc, frame-relative operand depth) pairs observed by the last `execute` (for the DEPTH suite)
+    pub static LAST_OBS: std::cell::RefCell<Vec<(usize, i64)>> = std::cell::RefCell::new(Vec::new());
+}
+
 /// execute from the entry of `entry_jump` with `input` as the initial input value
 pub fn execute<D: Store>(d: &mut D, entry_jump: usize, input: usize) -> String {
     let start = match d.get_from_jump_table(entry_jump) {
@@ -75,10 +80,17 @@ pub fn execute<D: Store>(d: &mut D, entry_jump: usize, input: usize) -> String {
     let mut seen: HashMap<usize, i64> = HashMap::new();
     let mut depth_note = String::from("ok");
     let mut steps = 0usize;
+    LAST_OBS.with(|o| o.borrow_mut().clear());
     loop {
         let pc = d.get_instruction_cursor();
         let instr = d.get_instruction(pc);
         let rel = d.operands().len() as i64 - *bases.last().unwrap_or(&0) as i64;
+        LAST_OBS.with(|o| {
+            let mut o = o.borrow_mut();
+            if o.len() < 4000 && !o.contains(&(pc, rel)) {
+                o.push((pc, rel));
+            }
+        });
         if depth_note == "ok" {
             if rel < 0 {
                 depth_note = format!("negative@{}", pc);
@@ -301,6 +313,36 @@ fn dump_on<D: Store>(f: &[&str]) -> String {
     match compile_into(&mut d, &src) {
         Ok(b) => format!("ok entry={} meta={} {}", b.entry_jump, b.meta_len, dump_program(&d)),
         Err(e) => e.to_string(),
+    }
+}
+
+fn depth_on<D: Store>(f: &[&str]) -> String {
+    let src = unescape(f[3]);
+    let mut d = D::create(parse_host(f[5]));
+    let b = match compile_into(&mut d, &src) {
+        Ok(b) => b,
+        Err(e) => return e.to_string(),
+    };
+    let dump = format!("ok entry={} meta={} {}", b.entry_jump, b.meta_len, dump_program(&d));
+    let input = match input_of(&mut d, f[4]) {
+        Ok(a) => a,
+        Err(e) => return format!("SETUP-ERR {}", e),
+    };
+    let res = execute(&mut d, b.entry_jump, input);
+    let obs: Vec<String> = LAST_OBS.with(|o| o.borrow().iter().map(|(pc, rel)| format!("{}:{}", pc, rel)).collect());
+    format!("{} @@ {} @@ {}", dump, obs.join(","), res)
+}
+
+/// DEPTH \t id \t store \t <escaped source> \t input \t host  ->  `<DUMP result> @@ pc:depth,pc:depth,.. @@ <RUN result>`:
+/// the built program, every distinct (instruction address, frame-relative operand depth) observed while running it, the outcome
+pub fn depth_case(f: &[&str]) -> String {
+    if f.len() < 6 {
+        return "BAD-CASE fields".into();
+    }
+    match f[2] {
+        "simple" => depth_on::<SimpleStore>(f),
+        "basic" => depth_on::<BasicStore>(f),
+        s => format!("BAD-CASE store {}", s),
     }
 }
 
